@@ -355,6 +355,31 @@ Definition stop_sequences : list (string * list (string * kind * list alt)) :=
     [("func", CloseChan, W "cq.quit"); ("func", WaitGroupWait, W "cq.wg")])].
 
 (* ------------------------------------------------------------------ *)
+(* Errors that end in a panic.  A release by a quit channel ends the WAIT,
+   not the operation: after <-b.quit has fired in onBlockDisconnected the
+   block handler goes on with its rollback (the remaining notifications are
+   dropped the same way) and then writes the new branch; nothing on such a
+   path may turn the shutdown into an error that a caller answers with
+   panic(...), or Stop takes the process down.  The panic-on-error sites of
+   the listed functions and the error returns of the functions feeding them
+   are therefore part of the tie: a NEW panic on an error, or a new error
+   return (say, ErrShuttingDown after a quit poll) in a function whose error
+   is turned into a panic, makes Tie_fail_paths / Tie_complete fail.      *)
+
+Record failpath := mkFail { f_key : key; f_count : nat; f_why : string }.
+
+Definition fail_paths : list failpath :=
+  [(* handleHeadersMsg, reorganisation: panic("Rollback failed: ...") on any
+      error of rollBackToHeight *)
+   mkFail (mkKey "blockmanager.go:blockManager.handleHeadersMsg" "" PanicOnErr [WaitOn "err"]) 1
+     "rollBackToHeight's error; all its error returns are store errors (next entry)";
+   mkFail (mkKey "blockmanager.go:blockManager.rollBackToHeight" "" ErrReturn [WaitOn "err"]) 6
+     "every error return hands on an error of the header stores (ChainTip, FetchHeader, RollbackLastBlock); none is caused by b.quit";
+   (* getCheckpointedCFHeaders: store reads, and writeCFHeadersMsg *)
+   mkFail (mkKey "blockmanager.go:blockManager.getCheckpointedCFHeaders" "" PanicOnErr [WaitOn "err"]) 3
+     "errors of the header stores and of writeCFHeadersMsg (store errors, out-of-order message); none is caused by b.quit"].
+
+(* ------------------------------------------------------------------ *)
 (* Sites other claims lean on (they are on the allow-list as non-blocking,
    but must exist).                                                     *)
 
